@@ -33,4 +33,14 @@ PROPS = {
         design_ref="7/C14",
         trusted=["net/url.Parse, URL.Query, path/filepath.Clean, strings.EqualFold (ASCII): modelled on the grammar stated in Model/Url.v and compared with the real libraries on every run (Cases_C14_lib); layer-1 theorems do not depend on that model"],
     ),
+    "C08": dict(
+        props="Props/C08.v", module="Props.C08", harness="C08",
+        n_quick=1, n_thorough=6,
+        model_files=["Model/Conv.v", "Model/Views.v", "Model/Layout.v", "Model/Findings.v", "Gen/Layout.v", "Gen/Conv.v", "Gen/Casts.v"],
+        go_funcs=["ToObject", "ToActor", "ToActivity", "ToIntransitiveActivity", "ToQuestion", "ToCollection", "ToCollectionPage", "ToOrderedCollection", "ToOrderedCollectionPage", "ToPlace", "ToProfile", "ToRelationship", "ToTombstone", "ToLink", "reflectItemToType"],
+        design_ref="7/C08",
+        technique="Coq: generic view-soundness theorems over arbitrary layouts + vm_compute table conditions over layouts/cast sites/To* switches regenerated from source; exhaustive conversion matrix on the real code",
+        trusted=["go/types.SizesFor(gc, amd64) as the struct layout the compiler uses (cross-checked by reflect sizes in the harness)",
+                 "the Go runtime's checkptr instrumentation is not modelled"],
+    ),
 }
